@@ -103,6 +103,10 @@ class World:
             if self.ndim == 2:
                 raise ValueError("2-D hilbert worlds are not generated (curve not reproducible here)")
             fr = self.p["bound_frac"]
+            if self.p.get("bound_keys"):
+                # explicit interior keys (e.g. aligned with coarse-cube key ranges)
+                ks = sorted({int(k) for k in self.p["bound_keys"] if 0 < int(k) < kmax})[: self.ncpu - 1]
+                fr = [k / kmax for k in ks] + [1.0 - 1e-9] * (self.ncpu - 1 - len(ks))
             if fr is None:
                 fr = sorted(u01(self.p["wseed"], "cut", c) for c in range(self.ncpu - 1))
             cuts = []
@@ -143,7 +147,8 @@ class World:
         prune = {tuple(x) for x in p["prune"]}
         self.levels = {l: [] for l in range(1, L + 1)}
         root = Oct(1, (0,) * self.ndim)
-        root.owner = 1
+        # the level-1 oct belongs to the rank owning the coarse cell, i.e. the key of the box centre
+        root.owner = self.cpu_of_cell(0, (0,) * self.ndim) if self.hilbert else 1
         self.levels[1].append(root)
         ncells = 0
         for l in range(1, L + 1):
